@@ -108,6 +108,10 @@ class RtlReader(object):
                 # advance i with a jump
                 i = frame_start + j
 
+                # the frame length is given by the first bit of the DF field,
+                # anything decoded beyond it is noise
+                msgbin = msgbin[: fbits if msgbin and msgbin[0] else fbits // 2]
+
                 if len(msgbin) > 0:
                     msghex = pms.bin2hex("".join([str(i) for i in msgbin]))
                     if self._check_msg(msghex):
